@@ -179,7 +179,8 @@ def check_filter_grid(case, ctx):
 
 
 # ====================================================================================== filter (generated)
-INT_SCALES = [0.1, 0.5, 2.0, 3.0, 7.3, 10.0, 1e-3, 1e3]
+# (the powers of two beyond 2**53 make one objective so large that differences in another one vanish in a row sum)
+INT_SCALES = [0.1, 0.5, 2.0, 3.0, 7.3, 10.0, 1e-3, 1e3, 2.0 ** 55, 2.0 ** 60, 2.0 ** 60, 2.0 ** 70, 2.0 ** -60]
 GEN_WEIGHTS = [1.0, -1.0, 1.0, -1.0, 0.5, -0.5, 2.0, -2.0, 1e-3, -1e-3, 1e3, -1e3, 0.37, -0.37, 0.0]
 _coord_float = st.one_of(st.just(0.0),
                          st.floats(min_value=1e-6, max_value=1e6, allow_nan=False, allow_infinity=False),
@@ -220,7 +221,7 @@ def filter_case(draw):
         wt = [draw(st.sampled_from(GEN_WEIGHTS)) for _ in range(nobj)]
     perm = draw(st.permutations(list(range(npt))))
     if kind == "float":
-        scale = [2.0 ** draw(st.integers(-20, 20)) for _ in range(nobj)]
+        scale = [2.0 ** draw(st.one_of(st.integers(-20, 20), st.sampled_from([55, 60, 70, -60]))) for _ in range(nobj)]
     else:
         scale = [draw(st.sampled_from(INT_SCALES)) for _ in range(nobj)]
     scale_on = draw(st.sampled_from(["points", "weights"]))
@@ -274,6 +275,7 @@ def check_filter(case, ctx):
 
     # positive rescaling of objectives
     sc = [float(s) for s in case["scale"]]
+    ctx.label("rescaled_objectives_differ_by_more_than_2^53", len(sc) >= 2 and max(sc) / min(sc) >= 2.0 ** 53 and len(points) >= 2)
     if case["scale_on"] == "points":
         ps = [[x * s for x, s in zip(p, sc)] for p in points]
         ms = run_filter(ps, wt, ctx, "rescale.")
@@ -556,7 +558,7 @@ SUBCHECKS = [
                   "forced duplicates and single-coordinate ties), weights ones/signs/general incl. 0, permutation, "
                   "positive rescaling; non-trivial = >=3 points with at least one dominated point",
              required_labels=("single_point", "has_duplicates", "has_coordinate_tie", "collinear_front",
-                              "mixed_sign_weights", "has_dominated_point")),
+                              "mixed_sign_weights", "has_dominated_point", "rescaled_objectives_differ_by_more_than_2^53")),
     SubCheck("dominates_grid", check_dominates_grid, cases=dominates_grid_cases, shards_quick=1, shards_thorough=1,
              rule="exhaustive: ordered pairs on {0,1,2}^2 x cv in {-1,0,0.5,2}^2; non-trivial = one dominates the other",
              required_labels=("both_feasible", "one_feasible", "both_infeasible")),
